@@ -34,6 +34,12 @@ func main() {
 		fmt.Fprintln(os.Stderr, "unknown corpus kind", *kind)
 		os.Exit(2)
 	}
+	if *gen == "v1" {
+		// shapes the root-module generation does not support are left out for v1 only (documented at Schema.ForV1)
+		for _, n := range s.ForV1() {
+			fmt.Println("v1:", n)
+		}
+	}
 	must(os.MkdirAll(*out, 0o755))
 	must(os.WriteFile(filepath.Join(*out, "schema.json"), s.Describe(), 0o644))
 	must(os.WriteFile(filepath.Join(*out, "manifest.json"), s.ManifestV2(), 0o644))
